@@ -61,6 +61,7 @@ func main() {
 			"an empty gcaPubKey.dat placed before the first start stands for the residue of a crash during a registration that never completed; such a server counts as unregistered",
 			"a registration issued while a directory occupies the path gcaPubKey.dat (write fault injected from outside, removed right after the call) may be refused; whatever it answers, the model state, the server's key state and every later answer must agree",
 			"the all-zero key is a legitimate GCA key (one sequential history in five registers it, one concurrent batch in five has it among the candidates); nobody can sign for it, so after it is registered nothing at all is honoured",
+			"records that name an existing server key are judged by their effect on the server list (snapshot and GET), not by the HTTP status; what the registered key itself may change about an existing entry is C17's subject, here only a ban by it must take effect",
 			"race reports are raised for the operations of this property only: registration against equipment authorization, server authorization and migration orders (plus the GET handlers used for inspection)",
 			"delay injections rely on wall-clock sleeps of 60-100 ms only to widen the window; a too short sleep loses detection, not soundness",
 		},
@@ -81,6 +82,8 @@ func main() {
 			c.Require("seq.registration_accepted", 10)
 			c.Require("seq.prereg_orders_refused", 30)
 			c.Require("seq.winner_orders_accepted", 10)
+			c.Require("existing_server_probes_without_effect", 100)
+			c.Require("existing_server_bans_by_registered_gca_applied", 5)
 			c.Require("seq.restarts", 5)
 			c.Require("seq.winner_is_zero_key", 3)
 			c.Require("seq.failed_persist_registration_refused", 3)
@@ -1107,6 +1110,15 @@ func seqHistory(b run.Batch, r *ev.Result, sink uint16, idx int) {
 		}
 	}
 	x.inspect("after probes")
+	if x.bad {
+		return
+	}
+	// records that name an EXISTING server key: only the registered key may change an entry
+	if !zeroWinner && len(x.states) == 1 && x.states[0] == keyState(winner.Pub) {
+		if !x.existingServerProbes(winner, losers[0]) {
+			return
+		}
+	}
 	// everything again after a restart: replays of every registration seen so far
 	if !x.restart() {
 		return
@@ -1131,6 +1143,166 @@ func seqHistory(b run.Batch, r *ev.Result, sink uint16, idx int) {
 	if idx == 0 {
 		r.Sample(map[string]interface{}{"kind": "seq", "calls": len(x.hist), "history_head": x.head(8)})
 	}
+}
+
+// serverLists returns the server list as the snapshot and as GET
+// /authorized-servers show it (ok=false if the GET could not be done).
+func (x *ctx) serverLists() ([]server.AuthorizedServer, []refenc.AuthServer, bool) {
+	snap := x.srv.S.VerifSnapshot(false)
+	st, as, err := x.srv.AuthorizedServers()
+	for try := 0; try < 3 && (err != nil || st != 200); try++ {
+		st, as, err = x.srv.AuthorizedServers()
+	}
+	return snap.Servers, as, err == nil && st == 200
+}
+
+func sameServers(a, b []server.AuthorizedServer) bool {
+	if len(a) != len(b) {
+		return false
+	}
+	for i := range a {
+		if a[i] != b[i] {
+			return false
+		}
+	}
+	return true
+}
+
+func sameRefServers(a, b []refenc.AuthServer) bool {
+	if len(a) != len(b) {
+		return false
+	}
+	for i := range a {
+		if a[i] != b[i] {
+			return false
+		}
+	}
+	return true
+}
+
+// existingServerProbes: after the registered GCA has authorized two servers,
+// records naming those EXISTING keys (ban, changed ports, ban with changed
+// ports, un-ban) that do not carry the registered key's signature must leave
+// the server list bit-identical, whatever the endpoint answers; a ban signed
+// by the registered key must take effect. Judged by effect, not by status.
+func (x *ctx) existingServerProbes(winner, loser refenc.Key) bool {
+	g := x.g
+	mk := func() refenc.AuthServer {
+		return refenc.AuthServer{Pub: refenc.GenKey(g.rng).Pub, Location: "127.0.0.1", HTTP: g.sink, TCP: uint16(1 + g.rng.Intn(60000)), UDP: uint16(1 + g.rng.Intn(60000))}
+	}
+	post := func(s refenc.AuthServer, label string) rec {
+		c := &call{Kind: "server-existing", Label: label, Path: "/api/v1/authorized-servers", Body: s.JSON()}
+		run.Op("%s server-existing %s", x.name, label)
+		rc := x.do(0, c)
+		x.r.Count("existing_server_probes."+outName[rc.Out], 1)
+		return rc
+	}
+	a, b := mk().Signed(winner.Priv), mk().Signed(winner.Priv)
+	for _, s := range []refenc.AuthServer{a, b} {
+		if rc := post(s, "registered-gca/new"); rc.Out != outOK {
+			if rc.Out == outFail {
+				x.violation("server-signed-by-registered-gca-refused", map[string]interface{}{"status": rc.Status}, "a new server record signed by the registered GCA was refused (HTTP %d)", rc.Status)
+			}
+			return false
+		}
+	}
+	type signer struct {
+		who  string
+		key  *refenc.Key
+		mode string
+	}
+	signers := []signer{{"loser", &loser, "valid"}, {"server-key", &g.srvKey, "valid"}, {"nobody", nil, "zero"}, {"nobody", nil, "random"}}
+	if g.temp.Pub != winner.Pub {
+		signers = append(signers, signer{"temp", &g.temp, "valid"})
+	}
+	variants := func(base refenc.AuthServer, banned bool) map[string]refenc.AuthServer {
+		m := map[string]refenc.AuthServer{}
+		if !banned {
+			v := base
+			v.Banned = true
+			m["ban"] = v
+			v.TCP, v.UDP = v.TCP+1, v.UDP+1
+			m["ban-changed-ports"] = v
+			v = base
+			v.TCP, v.HTTP = v.TCP+1, v.HTTP+1
+			m["changed-ports"] = v
+		} else {
+			v := base
+			v.Banned = false
+			m["unban"] = v
+			v.TCP++
+			m["unban-changed-ports"] = v
+		}
+		return m
+	}
+	unauthorized := func(targets []refenc.AuthServer, banned bool) bool {
+		snap0, get0, ok0 := x.serverLists()
+		for _, t := range targets {
+			vs := variants(t, banned)
+			for _, name := range []string{"ban", "ban-changed-ports", "changed-ports", "unban", "unban-changed-ports"} {
+				v, ok := vs[name]
+				if !ok {
+					continue
+				}
+				for _, sg := range signers {
+					rcd := v
+					rcd.Sig = [64]byte{}
+					switch sg.mode {
+					case "valid":
+						rcd = rcd.Signed(sg.key.Priv)
+					case "random":
+						copy(rcd.Sig[:], g.bytes(64))
+					}
+					label := name + "/" + sg.who + "/" + sg.mode
+					rc := post(rcd, label)
+					snap1, get1, ok1 := x.serverLists()
+					if !sameServers(snap0, snap1) || (ok0 && ok1 && !sameRefServers(get0, get1)) {
+						x.violation("existing-server-record-changed-by-unauthorized-order:"+name+"/"+sg.who+"/"+sg.mode,
+							map[string]interface{}{"record": string(rcd.JSON()), "status": rc.Status, "servers_before": len(snap0), "servers_after": len(snap1)},
+							"a %s record for an existing server signed by %s (%s) changed the server list (answer: %s, HTTP %d)", name, sg.who, sg.mode, outName[rc.Out], rc.Status)
+						return false
+					}
+					x.r.Count("existing_server_probes_without_effect", 1)
+				}
+			}
+		}
+		return true
+	}
+	if !unauthorized([]refenc.AuthServer{a, b}, false) {
+		return false
+	}
+	x.inspect("after unauthorized records for existing servers")
+	if x.bad {
+		return false
+	}
+	// the registered key bans b: must take effect
+	ban := b
+	ban.Banned = true
+	ban = ban.Signed(winner.Priv)
+	rc := post(ban, "ban/registered-gca/valid")
+	if rc.Out == outOK {
+		snap1, _, _ := x.serverLists()
+		found := false
+		for _, e := range snap1 {
+			if e.PublicKey == ban.Pub {
+				found = e.Banned && e.GCAAuthorization == ban.Sig
+			}
+		}
+		if !found {
+			x.violation("ban-signed-by-registered-gca-not-applied", map[string]interface{}{"record": string(ban.JSON())}, "a ban signed by the registered GCA was answered 200 but the stored record is not the ban")
+			return false
+		}
+		x.r.Count("existing_server_bans_by_registered_gca_applied", 1)
+		// nobody but (at most) the registered key may lift or alter the ban
+		if !unauthorized([]refenc.AuthServer{ban}, true) {
+			return false
+		}
+	} else if rc.Out == outFail {
+		x.violation("server-signed-by-registered-gca-refused", map[string]interface{}{"status": rc.Status}, "a ban signed by the registered GCA was refused (HTTP %d)", rc.Status)
+		return false
+	}
+	x.inspect("after records for existing servers")
+	return !x.bad
 }
 
 // ---------------------------------------------------------------- afterwards (shared by conc and delay)
